@@ -883,8 +883,13 @@ where
             Err(None)
         } else {
             let truncated_state = self.state ^ (State::one() << valid_bits);
-            self.bulk
-                .extend_from_iter(bit_array_to_chunks_truncated(truncated_state).rev())?;
+            // Emit exactly `valid_bits / Word::BITS` words (from least to most significant),
+            // including any zero words at the most significant end.
+            self.bulk.extend_from_iter(
+                (0..valid_bits)
+                    .step_by(Word::BITS)
+                    .map(|shift| (truncated_state >> shift).as_()),
+            )?;
             Ok(self.bulk)
         }
     }
